@@ -18,7 +18,11 @@ pub fn writers(k: &[u8], o: &[u8]) -> Vec<Vec<Vec<u8>>> {
         c(&[b"DEL", k]), c(&[b"DEL", o, k]), c(&[b"EXPIRE", k, b"100"]), c(&[b"EXPIRE", k, b"0"]), c(&[b"PEXPIRE", k, b"100000"]),
         c(&[b"PERSIST", k]), c(&[b"RENAME", k, o]), c(&[b"RENAME", o, k]), c(&[b"RENAMENX", k, b"fresh"]), c(&[b"RENAMENX", o, k]),
         c(&[b"FLUSHDB"]), c(&[b"FLUSHALL"]),
+        // stream writes (explicit IDs only: these may be queued inside MULTI, where an auto ID has no oracle)
+        c(&[b"XADD", k, b"9-0", b"f", b"v"]), c(&[b"XADD", k, b"1-0", b"f", b"v"]), c(&[b"XTRIM", k, b"MAXLEN", b"0"]), c(&[b"XDEL", k, b"5-0"]),
+        c(&[b"XGROUP", b"CREATE", k, b"g2", b"0", b"MKSTREAM"]), c(&[b"XREADGROUP", b"GROUP", b"g", b"c2", b"STREAMS", k, b">"]), c(&[b"XACK", k, b"g", b"5-0"]),
         // reads must not abort
+        c(&[b"XRANGE", k, b"-", b"+"]), c(&[b"XLEN", k]), c(&[b"XPENDING", k, b"g"]),
         c(&[b"GET", k]), c(&[b"STRLEN", k]), c(&[b"EXISTS", k]), c(&[b"TTL", k]), c(&[b"TYPE", k]), c(&[b"GETRANGE", k, b"0", b"-1"]), c(&[b"MGET", k, o]),
         c(&[b"KEYS", b"*"]), c(&[b"INCR", k, b"extra"]), c(&[b"SET", k]),
         // ---- list / set / hash families (C03): every write command ...
@@ -84,6 +88,73 @@ pub fn gen(seed: u64, n: usize, _tier: &str) -> Vec<Case> {
         }
         cases.push(Case { id: format!("cat-{}", id), ops, outs: vec![] }); id += 1;
     }
+    // expiry of a watched key counts as a change: by deadline alone, after a lazy removal by a read
+    // (any connection), after a sweeper pass; the sweeper is stepped through the VERIF hook
+    for (ei, how) in ["deadline", "read-other", "read-self", "sweep", "exists-other", "sweep-then-recreate", "not-yet"].iter().enumerate() {
+        let mut ops = vec![conn_op(1), conn_op(2), cmd_op(2, &[b"VERIF", b"SWEEP", b"PAUSE"])];
+        ops.push(cmd_op(2, &[b"SET", b"wk", b"v", b"PX", b"200"]));
+        ops.push(cmd_op(2, &[b"SET", b"kg", b"same-shard"]));
+        ops.push(cmd_op(1, &[b"WATCH", b"wk"]));
+        ops.push(cmd_op(1, &[b"GET", b"wk"]));
+        if *how != "not-yet" { ops.push(sleep_op(300)); }
+        match *how {
+            "read-other" => ops.push(cmd_op(2, &[b"GET", b"wk"])),
+            "read-self" => ops.push(cmd_op(1, &[b"GET", b"wk"])),
+            "exists-other" => ops.push(cmd_op(2, &[b"EXISTS", b"wk"])),
+            "sweep" => ops.push(sweep_op()),
+            "sweep-then-recreate" => { ops.push(sweep_op()); ops.push(cmd_op(2, &[b"SET", b"wk", b"v"])); }
+            _ => {}
+        }
+        ops.push(cmd_op(1, &[b"MULTI"]));
+        ops.push(cmd_op(1, &[b"SET", b"probe", b"ran"]));
+        ops.push(cmd_op(1, &[b"EXEC"]));
+        ops.push(cmd_op(2, &[b"GET", b"probe"]));
+        cases.push(Case { id: format!("expiry-{}-{}", ei, id), ops, outs: vec![] }); id += 1;
+    }
+    // the watched key is a stream (with a group and a pending entry): stream writers, group commands, reads
+    let c = |a: &[&[u8]]| -> Vec<Vec<u8>> { a.iter().map(|x| x.to_vec()).collect() };
+    let stream_cmds: Vec<Vec<Vec<u8>>> = vec![
+        c(&[b"XADD", k, b"9-0", b"f", b"v"]), c(&[b"XADD", k, b"1-0", b"f", b"v"]), c(&[b"XADD", k, b"*", b"f", b"v"]), c(&[b"XADD", k, b"9-0", b"f"]),
+        c(&[b"XTRIM", k, b"MAXLEN", b"0"]), c(&[b"XTRIM", k, b"MAXLEN", b"100"]), c(&[b"XDEL", k, b"5-0"]), c(&[b"XDEL", k, b"99-0"]),
+        c(&[b"DEL", k]), c(&[b"RENAME", k, o]), c(&[b"EXPIRE", k, b"100"]), c(&[b"PERSIST", k]), c(&[b"SET", k, b"v"]),
+        // consumer-group commands: they change the key's group state but the engine never marks
+        // the key for that (finding stream-group-writes-unmarked); the model says the same
+        c(&[b"XGROUP", b"CREATE", k, b"g2", b"0"]), c(&[b"XGROUP", b"CREATE", k, b"g2", b"$", b"MKSTREAM"]), c(&[b"XGROUP", b"CREATE", k, b"g2", b"abc", b"MKSTREAM"]),
+        c(&[b"XGROUP", b"DESTROY", k, b"g"]), c(&[b"XGROUP", b"SETID", k, b"g", b"0"]), c(&[b"XGROUP", b"CREATECONSUMER", k, b"g", b"c9"]),
+        c(&[b"XGROUP", b"DELCONSUMER", k, b"g", b"c1"]), c(&[b"XREADGROUP", b"GROUP", b"g", b"c2", b"STREAMS", k, b">"]),
+        c(&[b"XREADGROUP", b"GROUP", b"g", b"c2", b"NOACK", b"STREAMS", k, b">"]), c(&[b"XREADGROUP", b"GROUP", b"g", b"c2", b"STREAMS", k, b"0"]),
+        c(&[b"XACK", k, b"g", b"5-0"]), c(&[b"XACK", k, b"g", b"6-0"]), c(&[b"XCLAIM", k, b"g", b"c2", b"0", b"5-0"]),
+        // reads must not abort
+        c(&[b"XRANGE", k, b"-", b"+"]), c(&[b"XREVRANGE", k, b"+", b"-"]), c(&[b"XLEN", k]), c(&[b"XREAD", b"STREAMS", k, b"0"]),
+        c(&[b"XPENDING", k, b"g"]), c(&[b"XPENDING", k, b"g", b"-", b"+", b"10"]), c(&[b"XINFO", b"STREAM", k]), c(&[b"XINFO", b"GROUPS", k]),
+        c(&[b"XINFO", b"CONSUMERS", k, b"g"]), c(&[b"TYPE", k]),
+    ];
+    for w in stream_cmds.iter() {
+        let mut ops = vec![conn_op(1), conn_op(2)];
+        for init in 0..4 {
+            for who in 0..2 {
+                ops.push(cmd_op(2, &[b"FLUSHALL"]));
+                // init: 0 = no key, 1 = stream with one entry, 2 = + group g with entry 5-0 pending for c1 and 6-0 undelivered, 3 = like 2 with a TTL
+                if init >= 1 { ops.push(cmd_op(2, &[b"XADD", k, b"5-0", b"f", b"v"])); }
+                if init >= 2 {
+                    ops.push(cmd_op(2, &[b"XGROUP", b"CREATE", k, b"g", b"0"]));
+                    ops.push(cmd_op(2, &[b"XREADGROUP", b"GROUP", b"g", b"c1", b"STREAMS", k, b">"]));
+                    ops.push(cmd_op(2, &[b"XADD", k, b"6-0", b"f", b"w"]));
+                }
+                if init == 3 { ops.push(cmd_op(2, &[b"EXPIRE", k, b"1000"])); }
+                ops.push(cmd_op(1, &[b"WATCH", k]));
+                push_cmd(&mut ops, if who == 0 { 2 } else { 1 }, w);
+                ops.push(cmd_op(1, &[b"MULTI"]));
+                ops.push(cmd_op(1, &[b"SET", b"probe", b"ran"]));
+                ops.push(cmd_op(1, &[b"EXEC"]));
+                ops.push(cmd_op(2, &[b"GET", b"probe"]));
+                ops.push(cmd_op(2, &[b"DEL", b"probe"]));
+                ops.push(cmd_op(2, &[b"XLEN", k]));
+                ops.push(cmd_op(2, &[b"XPENDING", k, b"g"]));
+            }
+        }
+        cases.push(Case { id: format!("xcat-{}", id), ops, outs: vec![] }); id += 1;
+    }
     // writer inside another connection's EXEC; UNWATCH / DISCARD / EXEC forget; WATCH under another db
     for _ in 0..n {
         let mut ops = vec![conn_op(1), conn_op(2), conn_op(3)];
@@ -109,7 +180,7 @@ pub fn gen(seed: u64, n: usize, _tier: &str) -> Vec<Case> {
             }
         }
         ops.push(conn_op(9));
-        for kk in keys { ops.push(cmd_op(9, &[b"GET", kk])); }
+        for kk in keys { ops.push(cmd_op(9, &[b"GET", kk])); ops.push(cmd_op(9, &[b"TYPE", kk])); ops.push(cmd_op(9, &[b"XRANGE", kk, b"-", b"+"])); ops.push(cmd_op(9, &[b"XPENDING", kk, b"g"])); }
         let _ = b2;
         cases.push(Case { id: format!("rnd-{}", id), ops, outs: vec![] }); id += 1;
     }
